@@ -394,44 +394,77 @@ def pyIntOf : PyVal → Res Int
   | .float _ => .error .unmodelled
   | _ => .error .typeError
 
+/-- vText / vUri / vCalAddress / vInline: `str.__new__(cls, value)`; only vText escapes in `to_ical` -/
+def mkTextual (cls : Str) (v : PyVal) : Res Val :=
+  match pyStr v with
+  | some s => .ok ⟨cls, if cls == cText then escapeChar s else s, []⟩
+  | none => .error .unmodelled
+
+def mkInt (cls : Str) (v : PyVal) : Res Val :=
+  match pyIntOf v with
+  | .ok z => .ok ⟨cls, intTo z, []⟩
+  | .error e => .error e
+
+def mkBoolean (cls : Str) (v : PyVal) : Res Val :=
+  match pyIntOf v with
+  | .ok z => .ok ⟨cls, boolTo (z != 0), []⟩
+  | .error e => .error e
+
+def mkFloat (cls : Str) (v : PyVal) : Res Val :=
+  match v with
+  | .float r => .ok ⟨cls, r, []⟩
+  | _ => .error .unmodelled
+
+def mkGeo (cls : Str) (v : PyVal) : Res Val :=
+  match v with
+  | .geo lat lon => .ok ⟨cls, lat ++ ';' :: lon, []⟩
+  | .text s => if s.length < 2 then .error .valueError else .error .unmodelled
+  | _ => .error .valueError
+
+def mkPeriod (cls : Str) (v : PyVal) : Res Val :=
+  match v with
+  | .period a b =>
+    match periodText a b with
+    | some t => .ok ⟨cls, t, periodParamsV a⟩
+    | none => .error .valueError
+  | .geo _ _ => .error .valueError
+  | .text _ => .error .valueError
+  | .recur _ => .error .unmodelled
+  | _ => .error .typeError            -- cannot unpack a non-iterable object
+
+def mkUTCOffset (cls : Str) (v : PyVal) : Res Val :=
+  match v with
+  | .atom (.dur s) => .ok ⟨cls, offTo s, []⟩
+  | _ => .error .valueError
+
+def mkRecur (cls : Str) (v : PyVal) : Res Val :=
+  match v with
+  | .recur t => .ok ⟨cls, t, []⟩
+  | _ => .error .unmodelled
+
+/-- `vCategory(x)` for one object that is no list: `[x]`, except that a tuple is iterated -/
+def mkCategory1 (cls : Str) (v : PyVal) : Res Val :=
+  match v with
+  | .period _ _ => .error .unmodelled
+  | .geo _ _ => .error .unmodelled
+  | _ =>
+    match pyStr v with
+    | some s => .ok ⟨cls, catsToIcal [s], []⟩
+    | none => .error .unmodelled
+
 /-- `klass(value)` for one object: the value class constructors -/
 def construct1 (cls : Str) (v : PyVal) : Res Val :=
-  if cls == cText || cls == cUri || cls == cCalAddress || cls == cInline then
-    match pyStr v with
-    | some s => .ok ⟨cls, if cls == cText then escapeChar s else s, []⟩
-    | none => .error .unmodelled
-  else if cls == cInt then (pyIntOf v).map (fun z => ⟨cls, intTo z, []⟩)
-  else if cls == cBoolean then (pyIntOf v).map (fun z => ⟨cls, boolTo (z != 0), []⟩)
-  else if cls == cFloat then
-    match v with | .float r => .ok ⟨cls, r, []⟩ | _ => .error .unmodelled
-  else if cls == cGeo then
-    match v with
-    | .geo lat lon => .ok ⟨cls, lat ++ ';' :: lon, []⟩
-    | .text s => if s.length < 2 then .error .valueError else .error .unmodelled
-    | _ => .error .valueError
+  if cls == cText || cls == cUri || cls == cCalAddress || cls == cInline then mkTextual cls v
+  else if cls == cInt then mkInt cls v
+  else if cls == cBoolean then mkBoolean cls v
+  else if cls == cFloat then mkFloat cls v
+  else if cls == cGeo then mkGeo cls v
   else if cls == cDDD then mkDDD v
   else if cls == cDDDLists then mkDDDLists (.one v)
-  else if cls == cPeriod then
-    match v with
-    | .period a b =>
-      match periodText a b with
-      | some t => .ok ⟨cls, t, periodParamsV a⟩
-      | none => .error .valueError
-    | .geo _ _ => .error .valueError
-    | .text _ => .error .valueError
-    | .recur _ => .error .unmodelled
-    | _ => .error .typeError            -- cannot unpack a non-iterable object
-  else if cls == cUTCOffset then
-    match v with | .atom (.dur s) => .ok ⟨cls, offTo s, []⟩ | _ => .error .valueError
-  else if cls == cRecur then
-    match v with | .recur t => .ok ⟨cls, t, []⟩ | _ => .error .unmodelled
-  else if cls == cCategory then
-    match v with
-    | .period _ _ => .error .unmodelled
-    | .geo _ _ => .error .unmodelled
-    | _ => match pyStr v with
-      | some s => .ok ⟨cls, catsToIcal [s], []⟩
-      | none => .error .unmodelled
+  else if cls == cPeriod then mkPeriod cls v
+  else if cls == cUTCOffset then mkUTCOffset cls v
+  else if cls == cRecur then mkRecur cls v
+  else if cls == cCategory then mkCategory1 cls v
   else .error .unmodelled
 
 /-- `klass(value)` where `value` may be a Python list (only reached for `Gen.addListNames`) -/
